@@ -447,6 +447,23 @@ var Scenarios = []Directed{
 		s.End()
 		s.Blocks(2, allHdr)
 	}},
+	{"valcount_change", []string{"C07", "C10", "C15"}, fam(0), func(s *Script) {
+		// governance lowers the maximum validator count from 4 to 2 while three validators are active;
+		// the block in which the new value becomes active is a restart boundary of interest
+		s.Blocks(3, allHdr)
+		s.Begin(allHdr) // 4
+		s.expect(OK(s.Propose(1, 6, 2, 10, `{"maxValidatorCnt":"2"}`)), "proposal to lower the validator count")
+		s.expect(OK(s.Stake(4, 1, "3e18")), "a1 gets more power than the others")
+		s.End()
+		p := s.Proposals()
+		s.Blocks(1, allHdr)
+		s.Begin(allHdr) // 6
+		for v := 1; v <= 3 && len(p) == 1; v++ {
+			s.Vote(v, p[0], 0)
+		}
+		s.End()
+		s.Blocks(8, allHdr)
+	}},
 	{"setdoc_and_accounts", []string{"C05", "C19", "C04"}, fam(0), func(s *Script) {
 		s.Blocks(2, allHdr)
 		s.Begin(allHdr)
